@@ -271,7 +271,7 @@ class Runner:
         d = os.path.join(self.work, h.name)
         gb, err = self.compile(h, cover=False)
         if getattr(h, "what_extra", None):
-            r["notes"].append("generated sources: " + h.what_extra)
+            r["generated_sources"] = h.what_extra
         if err:
             r["status"] = "inconclusive"
             r["notes"].append(err)
